@@ -272,6 +272,24 @@ def runSkip : P String := do
       | _, .error _ => "n/a the encoding is not readable in full"
     pure s!"{fmtDe a} | {fmtDe b} # {verdict}"
 
+/-- `judge-skip <k> <implementation outcome: partial | full> <case>`: the C12 oracle on the
+    implementation's own two outcomes. -/
+def runJudgeSkip : P String := do
+  let toks ← pList tok
+  let (ta, tb) := (toks.takeWhile (· ≠ "|"), (toks.dropWhile (· ≠ "|")).drop 1)
+  let verdict := match pDeOutcome.run ta, pDeOutcome.run tb with
+    | .ok (a, _), .ok (b, _) =>
+      (match a, b with
+      | .error .panic, _ | _, .error .panic => "VIOLATION panic or abort"
+      | .ok (oa, la), .ok (ob, lb) =>
+        if la ≠ lb then "VIOLATION skipping consumed a different number of bytes than reading"
+        else if !consistentOut oa ob then "VIOLATION a value read next to an ignored part differs from the full read"
+        else "ok"
+      | .error _, .ok _ => "VIOLATION the full read succeeds but the read that ignores parts fails"
+      | _, .error _ => "ok")
+    | _, _ => "ok"
+  pure s!"judged # {verdict}"
+
 /-- `dealloc <maxSeq> <depth> <schema> <bytes>`: slice input, `IgnoredAny` target. The model's slice
     back-end has no buffer at all; the oracle is that the real code made no heap allocation. -/
 def runDealloc : P String := do
@@ -452,17 +470,20 @@ def runPerm : P String := do
     let run := fun (svs : List SV) (pool : Pool) =>
       svs.foldl (fun (acc : List String × Pool) sv => let (o, p) := one acc.2 sv; (acc.1 ++ [o], p)) ([], pool)
     let (a, pool) := run same {}
-    let (b, _) := run bad pool
+    let (b, pool) := run bad pool
+    -- the same presentations once more, on the configuration the rejected ones went through
+    let (a2, _) := run same pool
     let verdict :=
-      if (a ++ b).contains "panic" then "VIOLATION panic"
+      if (a ++ b ++ a2).contains "panic" then "VIOLATION panic"
       else match a with
         | [] => "ok"
         | first :: rest =>
           if !first.startsWith "ok" then "n/a the in-order presentation is rejected"
           else if !rest.all (· == first) then "VIOLATION record bytes depend on the order / shape in which fields are presented"
           else if !b.all (· == "err") then "VIOLATION an unknown, duplicated or missing field was accepted"
+          else if !a2.all (· == first) then "VIOLATION record bytes depend on the order / shape in which fields are presented (after rejected presentations)"
           else "ok"
-    pure (" ; ".intercalate a ++ " | " ++ " ; ".intercalate b ++ " # " ++ verdict)
+    pure (" ; ".intercalate a ++ " | " ++ " ; ".intercalate b ++ " | " ++ " ; ".intercalate a2 ++ " # " ++ verdict)
 
 /-- `schema <ok|err|any> <xtext> <json> <xpcf|->`: parse a schema document. Oracle (C07, C08):
     a specification-valid document parses and its Parsing Canonical Form is the one computed on
@@ -1024,6 +1045,7 @@ def dispatch (line : String) : String :=
       | "judge-graph" => some runJudgeGraph
       | "judge-schema" => some runJudgeSchema
       | "judge-c11" => some runJudgeC11
+      | "judge-skip" => some runJudgeSkip
       | "crc" => some runCrc
       | "de" => some runDe
       | "c11" => some runC11
